@@ -5,7 +5,8 @@ Active only when VMON_C17_LOG names a log file.  A one-shot meta-path finder wai
 spawn children are fresh interpreters with the same environment, in every child) and then
 
 * replaces `_worker_func` (the function the spawn pool maps over the items) by a wrapper that
-  sleeps a delay derived from (VMON_C17_DELAY_SEED, item) and appends one line
+  (optionally after a rendez-vous of the worker processes, VMON_C17_BARRIER) sleeps a delay derived
+  from (VMON_C17_DELAY_SEED, item) and appends one line
   `W <pid> <t_start> <t_end> <item-json>` to the log with a single O_APPEND write;
 * wraps `_DirectoryDataset.__getitem__` (the work unit of the DataLoader workers, fork) in the
   same way (`D` lines).
@@ -26,6 +27,30 @@ TARGET = "pydrobert.torch.command_line"
 LOG = os.environ.get("VMON_C17_LOG")
 SEED = os.environ.get("VMON_C17_DELAY_SEED", "0")
 MAX_MS = float(os.environ.get("VMON_C17_DELAY_MAX_MS", "0") or 0)
+# optional rendez-vous: the first item of every worker process waits until BARRIER worker processes have
+# taken their first item (or the timeout passes), so that items really are in flight concurrently and
+# the seeded delays decide the completion order, not the start-up skew of the interpreters
+BARRIER = int(os.environ.get("VMON_C17_BARRIER", "0") or 0)
+BARRIER_TIMEOUT = float(os.environ.get("VMON_C17_BARRIER_TIMEOUT_S", "6") or 6)
+_first = [True]
+
+
+def _barrier():
+    if not _first[0]:
+        return
+    _first[0] = False
+    if BARRIER <= 1:
+        return
+    try:
+        open("%s.b%d" % (LOG, os.getpid()), "w").close()
+        d, base = os.path.dirname(LOG), os.path.basename(LOG) + ".b"
+        deadline = time.time() + BARRIER_TIMEOUT
+        while time.time() < deadline:
+            if sum(1 for n in os.listdir(d) if n.startswith(base)) >= BARRIER:
+                return
+            time.sleep(0.01)
+    except OSError:
+        pass
 
 
 def _delay(item):
@@ -54,6 +79,7 @@ def _patch(module):
 
         @functools.wraps(orig)
         def _worker_func(x_n):
+            _barrier()
             t0 = time.time()
             d = _delay(x_n)
             if d:
@@ -71,6 +97,7 @@ def _patch(module):
 
         @functools.wraps(orig_get)
         def __getitem__(self, index):
+            _barrier()
             t0 = time.time()
             d = _delay(index)
             if d:
